@@ -1,3 +1,4 @@
+import MiniconfVerif.Lemmas.GenTieValue
 import MiniconfVerif.Lemmas.WalkFrame
 import MiniconfVerif.Lemmas.WalkHist
 
@@ -67,5 +68,37 @@ example : (exT.walk exIo .de (.list [.str "w".toList])).res.keepsTree = true := 
 example : (exT.walk exIo .de (.list [.str ['v']])).val = some (.int 9) := by rfl
 example : ((exT.walk exIo .de (.list [.str ['v']])).tree.walk exIo .ser (.list [.str ['v']])).val = some (.int 9) := by
   rfl
+
+
+/-! ### Tie to the translated source (`Gen/Impls.lean`, regenerated from impls.rs on every run) -/
+open MiniconfVerif.Gen MiniconfVerif.Gen.Core MiniconfVerif.GenTie in
+/-- `TreeSerialize` / `TreeDeserialize` / `TreeAny` of `[T; N]` **as translated from impls.rs** (key source and the
+element type's by-key functions as parameters, `self[index]` with its bounds check explicit) do not panic and are the
+model's walk at an array: the element the key's index designates is the one read or written — the returned array is
+the old one with exactly that element replaced by what the element's own function returned — and the result is the
+element's result, one level deeper. -/
+theorem source_array_access_is_model (io : Io) (elems : List Tree) (ks : KeySrc) (hn : 0 < elems.length)
+    (hnp : ∀ s, ks.next (.homog elems.length) ≠ .error (.panic s)) :
+    (∀ childSer : Tree → KeySrc → Except (Error Unit) Nat,
+      (∀ t ks, resOfGen (childSer t ks) = (t.walk io .ser ks).res) →
+      ∃ r, Impls.array.serialize_by_key keysNextM elems.length childSer elems ks = .val r ∧
+        resOfGen r = (Tree.walk io .ser (.array elems) ks).res) ∧
+    (∀ childDe : Tree → KeySrc → Except (Error Unit) Nat × Tree,
+      (∀ t ks, resOfGen (childDe t ks).1 = (t.walk io .de ks).res ∧ (childDe t ks).2 = (t.walk io .de ks).tree) →
+      ∃ es r, Impls.array.deserialize_by_key keysNextM elems.length childDe elems ks = .val (es, r) ∧
+        resOfGen r = (Tree.walk io .de (.array elems) ks).res ∧
+        Tree.array es = (Tree.walk io .de (.array elems) ks).tree) ∧
+    (∀ childRef : Tree → KeySrc → Except Traversal Unit,
+      (∀ t ks, anyOfGen (childRef t ks) = anyView (t.walk io .refAny ks).res) →
+      ∃ r, Impls.array.ref_any_by_key keysNextM elems.length childRef elems ks = .val r ∧
+        anyOfGen r = anyView (Tree.walk io .refAny (.array elems) ks).res) ∧
+    (∀ childMut : Tree → KeySrc → Except Traversal Unit × Tree,
+      (∀ t ks, anyOfGen (childMut t ks).1 = anyView (t.walk io .mutAny ks).res ∧
+        (childMut t ks).2 = (t.walk io .mutAny ks).tree) →
+      ∃ es r, Impls.array.mut_any_by_key keysNextM elems.length childMut elems ks = .val (es, r) ∧
+        anyOfGen r = anyView (Tree.walk io .mutAny (.array elems) ks).res ∧
+        Tree.array es = (Tree.walk io .mutAny (.array elems) ks).tree) :=
+  ⟨fun c h => array_ser_tie io elems ks hn hnp c h, fun c h => array_de_tie io elems ks hn hnp c h,
+   fun c h => array_ref_tie io elems ks hn hnp c h, fun c h => array_mut_tie io elems ks hn hnp c h⟩
 
 end MiniconfVerif.C01
